@@ -221,6 +221,10 @@ func (x *sstr) String() string {
 		return fmt.Sprintf("s[:%d]", x.k)
 	case "cutafter":
 		return fmt.Sprintf("CutPrefix(s,%q)", x.s)
+	case "head":
+		return fmt.Sprintf("s[:first %q]", x.s)
+	case "tail":
+		return fmt.Sprintf("s[first %q:]", x.s)
 	case "repl":
 		return fmt.Sprintf("replaceAll(%v,%v)", x.sub, x.pairs)
 	case "esc":
@@ -373,6 +377,35 @@ func (c *sevalCtx) eval(v ssa.Value, depth int) *sstr {
 			if x.High != nil {
 				hi, okHi = c.intOf(x.High, 0)
 			}
+			// input[:i] / input[i:] with i = strings.IndexByte(input, q): the part before the first q (which contains no q)
+			// and the part from it on
+			firstOf := func(v ssa.Value) (string, bool) {
+				call, ok := sx.Unspill(v).(*ssa.Call)
+				if !ok || len(call.Call.Args) != 2 || sx.Unspill(call.Call.Args[0]) != ssa.Value(c.input) {
+					return "", false
+				}
+				switch sx.CalleeName(call) {
+				case "strings.IndexByte":
+					if k, ok := sx.ConstInt(call.Call.Args[1]); ok && k > 0 && k < 0x80 {
+						return string(rune(k)), true
+					}
+				case "strings.Index":
+					if k, ok := sx.ConstString(call.Call.Args[1]); ok && len(k) == 1 {
+						return k, true
+					}
+				}
+				return "", false
+			}
+			if x.Low == nil && x.High != nil {
+				if q, ok := firstOf(x.High); ok {
+					return &sstr{kind: "head", s: q}
+				}
+			}
+			if x.High == nil && x.Low != nil {
+				if q, ok := firstOf(x.Low); ok {
+					return &sstr{kind: "tail", s: q}
+				}
+			}
 			switch {
 			case okLo && x.High == nil:
 				if lo == 0 {
@@ -444,6 +477,14 @@ func (x *sstr) flat() []*sstr {
 		out = append(out, y)
 	}
 	walk(x)
+	// s[:first q] · replaceAll(s[first q:], {q→…}) is replaceAll(s, {q→…}): the part before the first q has no q to replace
+	for i := 0; i+1 < len(out); i++ {
+		h, r := out[i], out[i+1]
+		if h.kind == "head" && r.kind == "repl" && r.sub != nil && r.sub.kind == "tail" && r.sub.s == h.s && len(r.pairs) == 1 && r.pairs[0].old == h.s {
+			merged := &sstr{kind: "repl", sub: &sstr{kind: "input"}, pairs: r.pairs}
+			out = append(append(append([]*sstr{}, out[:i]...), merged), out[i+2:]...)
+		}
+	}
 	return out
 }
 
@@ -623,6 +664,57 @@ func checkQuoted(open string, pairs []replPair, closeS string) (bool, string) {
 		return false, fmt.Sprintf("closing constant %q does not end the quoted word cleanly (state %v, literal %q, %v)", closeS, cl.End, cl.Literal, cl.Problems)
 	}
 	return true, fmt.Sprintf("%q · replaceAll(input, %v) · %q: lexer returns to Unquoted with the word equal to the input", open, pairs, closeS)
+}
+
+// absentByteOnPath: the path (its edges) passes the "not found" edge of a test of strings.IndexByte(input, q) — `i < 0`,
+// `i == -1` true edges, `i >= 0`, `i != -1` false edges; returns q.
+func absentByteOnPath(fn *ssa.Function, input *ssa.Parameter, edges map[sx.Edge]bool) (string, bool) {
+	found := ""
+	sx.Instrs(fn, func(in ssa.Instruction) {
+		b, ok := in.(*ssa.BinOp)
+		if !ok || b.Referrers() == nil {
+			return
+		}
+		call, ok := sx.Unspill(b.X).(*ssa.Call)
+		if !ok || len(call.Call.Args) != 2 || sx.Unspill(call.Call.Args[0]) != ssa.Value(input) {
+			return
+		}
+		q := ""
+		switch sx.CalleeName(call) {
+		case "strings.IndexByte":
+			if k, ok := sx.ConstInt(call.Call.Args[1]); ok && k > 0 && k < 0x80 {
+				q = string(rune(k))
+			}
+		case "strings.Index", "strings.IndexRune":
+			if k, ok := sx.ConstString(call.Call.Args[1]); ok && len(k) == 1 {
+				q = k
+			}
+		case "strings.Contains", "strings.ContainsRune":
+		}
+		if q == "" {
+			return
+		}
+		k, isC := sx.ConstInt(b.Y)
+		if !isC {
+			return
+		}
+		absentIdx := -1
+		switch {
+		case b.Op == token.LSS && k == 0, b.Op == token.EQL && k == -1, b.Op == token.LEQ && k == -1:
+			absentIdx = 0
+		case b.Op == token.GEQ && k == 0, b.Op == token.NEQ && k == -1, b.Op == token.GTR && k == -1:
+			absentIdx = 1
+		}
+		if absentIdx < 0 {
+			return
+		}
+		for _, u := range *b.Referrers() {
+			if iff, ok := u.(*ssa.If); ok && edges[sx.Edge{From: iff.Block(), Idx: absentIdx}] {
+				found = q
+			}
+		}
+	})
+	return found, found != ""
 }
 
 // emptyInputEdges: the CFG edges of fn on which the input string is known to be empty (`s == ""`, `len(s) == 0`,
@@ -1091,6 +1183,11 @@ func runC16(p *core.Prog, r *core.Report) {
 		ret *ssa.Return
 	}
 	var emptyCases []emptyCase
+	type noQuoteCase struct {
+		c, open, closeS, q string
+		ret                *ssa.Return
+	}
+	var noQuoteCases []noQuoteCase
 	retIdx := func(fn *ssa.Function, ret *ssa.Return) int {
 		for i, r2 := range sx.Returns(fn) {
 			if r2 == ret {
@@ -1124,6 +1221,14 @@ func runC16(p *core.Prog, r *core.Report) {
 					continue
 				}
 			}
+			// constant · input · constant on a path where the input is known to contain no quote (`strings.IndexByte(s, q) <
+			// 0`): replacing q would change nothing — judged after the general form, which names the byte to replace
+			if fl := expr.flat(); rc.path != nil && len(fl) == 3 && fl[0].kind == "const" && fl[1].kind == "input" && fl[2].kind == "const" {
+				if q, ok := absentByteOnPath(se, se.Params[0], rc.edges); ok {
+					noQuoteCases = append(noQuoteCases, noQuoteCase{c, fl[0].s, fl[2].s, q, ret})
+					continue
+				}
+			}
 			open, mid, closeS, why := quotedFormOf(expr.flat())
 			if why == "" && mid.sub.kind != "input" {
 				why = "the string being escaped is " + mid.sub.String() + ", not the input"
@@ -1146,11 +1251,15 @@ func runC16(p *core.Prog, r *core.Report) {
 			}
 		}
 	}
+	for _, nc := range noQuoteCases {
+		ok := refOK && nc.open == refOpen && nc.closeS == refClose && len(refPairs) == 1 && refPairs[0].old == nc.q
+		r.Check(ok, "C16-R1", nc.c+": input without the quote is wrapped as it is", p.Pos(nc.ret.Pos()), fmt.Sprintf("%q · s · %q on the path where s contains no %q: what the general form yields for such s", nc.open, nc.closeS, nc.q), fmt.Sprintf("on the path where the input contains no %q it is returned as %q · s · %q, which is not what the general form (%q · replaceAll · %q replacing %v) yields, or the general form was not verified", nc.q, nc.open, nc.closeS, refOpen, refClose, refPairs))
+	}
 	for _, ec := range emptyCases {
 		ok := refOK && ec.k == refOpen+refClose
 		r.Check(ok, "C16-R1", ec.c+": constant for the empty input", p.Pos(ec.ret.Pos()), fmt.Sprintf("%q is what the general form yields for the empty string", ec.k), fmt.Sprintf("on the path where the input is empty the constant %q is returned, the general form yields %q (or the general form was not verified)", ec.k, refOpen+refClose))
 	}
-	if nRet == 0 || nRet == len(emptyCases) {
+	if nRet == 0 || nRet == len(emptyCases)+len(noQuoteCases) {
 		r.Fail("C16-R1", "ShellEscape returns", p.FuncPos(se), "no return with the general form found")
 	}
 	// R3
